@@ -15,7 +15,7 @@ RULE = ("random programs p (full model); for each: reflexivity, equality with th
 ASSUMPTIONS = ["model-level 'meaning or declarations differ' = declarations with slice defaults made explicit, body meaning "
                "unexpanded, macro meanings with parameters named by position (unused parameter renames are equivalent mutants)"]
 TIERS = {"quick": {"shards": 8, "budget_s": 90}, "thorough": {"shards": 16, "budget_s": 420}}
-REQUIRE = {"same-text-parsed-after-a-near-twin": 1500, "programs-with-near-twin-statements": 300, "mutant-pairs-judged": 8000, "meaning-changing-mutants": 5000, "equivalent-mutants": 50, "layout-pairs": 300,
+REQUIRE = {"programs-with-a-huge-constant-and-two-imports": 300, "same-text-parsed-after-a-near-twin": 1500, "programs-with-near-twin-statements": 300, "mutant-pairs-judged": 8000, "meaning-changing-mutants": 5000, "equivalent-mutants": 50, "layout-pairs": 300,
            "roundtrip-pairs": 300, "independent-pairs": 300, "eq:Circuit:True": 100, "eq:Circuit:False": 1000,
            "eq:GateStatement:False": 100, "eq:BlockStatement:False": 100, "eq:LoopStatement:False": 20, "eq:Register:False": 20,
            "eq:Constant:False": 20, "eq:Macro:False": 20}
@@ -301,8 +301,20 @@ def mutants(prog, rng):
                     break
         elif k == "usepulses":
             yield "pulse-module", put(prog, path, ("usepulses", n[1] + "x", "*"))
+            # the order of two different imports is part of the header (a later module's gates win)
+            nxt = path[:-1] + (path[-1] + 1,) if path else None
+            if len(path) == 1 and path[0] + 1 < len(prog) and prog[path[0] + 1][0] == "usepulses" and prog[path[0] + 1] != n:
+                i_ = path[0]
+                yield "pulse-import-order", prog[:i_] + (prog[i_ + 1], prog[i_]) + prog[i_ + 2:]
         elif k == "parallel_block" and len(n) > 2:
             yield "statement-order", put(prog, path, (k,) + tuple(reversed(n[1:])))
+
+
+def nonfinite(x):
+    """A mutant may push the largest double over the edge: infinities are no Jaqal numbers."""
+    if isinstance(x, float):
+        return x != x or x in (float("inf"), float("-inf"))
+    return isinstance(x, tuple) and any(nonfinite(v) for v in x)
 
 
 def process_pair(ctx, pa, pb, relation, cls=None):
@@ -343,6 +355,12 @@ def shard(ctx):
             extra = (("array_item", q[0][1], 0),) if q else ()
             prog = prog + (("gate", "tw") + extra + (a,), ("gate", "tw") + extra + (b,))
             rec.count("programs-with-near-twin-statements")
+        if rng.random() < 0.25:
+            # constants with values near and beyond 2**53 (where a float no longer tells neighbours apart), and two imports
+            big = rng.choice([2 ** 53, 2 ** 53 + 1, 2 ** 63 - 1, 2 ** 64, 10 ** 30, -(2 ** 53) - 1])
+            extra_hdr = (("usepulses", "vf.first", "*"), ("usepulses", "vf.second", "*"), ("let", "bigc", big))
+            prog = (prog[0],) + extra_hdr + tuple(x for x in prog[1:] if not (x[0] == "let" and x[1] == "bigc"))
+            rec.count("programs-with-a-huge-constant-and-two-imports")
         process_pair(ctx, prog, prog, "roundtrip")
         process_pair(ctx, prog, rng.randrange(1 << 30), "layout")
         if prev is not None:
@@ -353,7 +371,7 @@ def shard(ctx):
         if ctx.quick and len(ms) > 40:
             ms = rng.sample(ms, 40)
         for cls, m in ms:
-            if m == prog or not sx.legal_nesting(m):
+            if m == prog or not sx.legal_nesting(m) or nonfinite(m):
                 continue
             process_pair(ctx, prog, m, "mutant", cls)
         if i <= 2:
@@ -364,7 +382,7 @@ def shard(ctx):
         j += 1
         g = gen.ExecGen(rng, max_depth=rng.choice([1, 2]), n_macros=(0, 2), n_lets=(0, 2), n_maps=(1, 4), body_len=(1, 3))
         prog = g.program()
-        ms = [(c_, m) for c_, m in mutants(prog, rng) if m != prog and sx.legal_nesting(m)]
+        ms = [(c_, m) for c_, m in mutants(prog, rng) if m != prog and sx.legal_nesting(m) and not nonfinite(m)]
         for cls, m in rng.sample(ms, min(4, len(ms))):
             st, fails, info = judge_same_text_two_gate_sets(prog, m)
             rec.case([prog, m, "same-text"], nontrivial=True)
